@@ -2506,6 +2506,24 @@ fn main() {
                         }
                     }
                     let _ = &lets;
+                    // `@@bind` placeholders of the wrapper's signature / contract are resolved for a stubbed slice
+                    // too (an unresolvable one gets a fresh name: the body is a diverging placeholder anyway)
+                    if last_text_fn_at <= output.len() {
+                        let mut binds: Vec<(String, String)> = vec![];
+                        for (ph, anchor) in &d.binds {
+                            let (ph, occ) = match ph.split_once('@') { Some((p, j)) => (p.to_string(), j.parse::<usize>().unwrap_or(0)), None => (ph.clone(), 0) };
+                            let (ph, nth) = match ph.split_once('#') { Some((p, k)) => (p.to_string(), k.parse::<usize>().unwrap_or(0)), None => (ph.clone(), 0) };
+                            let mut lf = LetFinder { src: &src.text, anchor, nth, skip: occ, found: None };
+                            lf.visit_block(f.block);
+                            let id = lf.found.unwrap_or_else(|| format!("vx_unbound_{}", ph.trim_start_matches('$')));
+                            binds.push((ph, id));
+                        }
+                        binds.sort_by(|a, b| b.0.len().cmp(&a.0.len()));
+                        let mut head = output[last_text_fn_at..].to_string();
+                        for (ph, id) in &binds { head = head.replace(ph.as_str(), id); }
+                        output.truncate(last_text_fn_at);
+                        output.push_str(&head);
+                    }
                     output.push_str(&format!("// vx:slice {} {} (src lines 0-0) STUBBED — UNVERIFIED\n    return vx_stub_diverge();\n", d.file, stub_key));
                     skip_wrapper_tail = true;
                     fn_maps.push(serde_json::json!({"selector": d.selector, "file": d.file, "slice": true, "name": last_text_fn, "stubbed": true,
